@@ -50,6 +50,14 @@ def gen(ctx):
             elif r < 0.45:
                 rid += 1
                 labels.append(L.gen_request(rng, rid, allow_fail=True, allow_bin=False)[0])
+                if rng.random() < 0.3:
+                    # the caller gives up at once (or a moment later): the changes reported in the reply to the cancelled idle,
+                    # and every later one, must still arrive
+                    if rng.random() < 0.5:
+                        nm = rng.choice(L.SUBSYSTEMS)
+                        names.append(nm)
+                        labels.append(N(nm))
+                    labels.append(f"x{rid}")
             elif r < 0.62:
                 labels.append(rng.choice(["S", "S*", "S*"]))
             elif r < 0.90:
@@ -57,6 +65,20 @@ def gen(ctx):
             else:
                 labels.append("t" + str(rng.choice([1, 50, 100, 300])))
         items.append((L.Sched(labels=labels + L.flush(rid), note="random"), names))
+    # the caller of the request that cancelled the idle has gone when the reply to the cancellation (carrying changes) arrives
+    e = L.spec("echo", "a")
+    for pre in (["S*"], ["S*", N("player")], [N("player"), "S*"], ["S*", N("player"), "D5"]):
+        for mid in ([], [N("mixer")], ["S"], [N("mixer"), N("output")]):
+            pn = [L.SUBSYSTEMS[4]] if N("player") in pre else []
+            mn = [n_ for n_ in ("mixer", "output") if N(n_) in mid]
+            items.append((L.Sched(labels=["D0"] + pre + ["c1:" + e, "x1"] + mid + ["S*", "D0"] + L.flush(1), note="caller gone before the reply to noidle"), pn + mn))
+            items.append((L.Sched(labels=["D0"] + pre + ["c1:" + e] + mid + ["x1", "S*", "D0"] + L.flush(1), note="caller gone before the reply to noidle"), pn + mn))
+    # the transport stops taking writes right after an idle reply that reports changes: those changes were reported, so they are delivered
+    for k in (1, 2, 5):
+        nm = [L.SUBSYSTEMS[i % 14] for i in range(k)]
+        items.append((L.Sched(labels=["D0", "S*", "D0", "w"] + [N(x) for x in nm[:1]] + ["D0", "t200"] + [N(x) for x in nm[1:]] + ["t200"], note="write fault after an idle reply with a change"), nm[:1]))
+        items.append((L.Sched(labels=["D0"] + [N(x) for x in nm] + ["w", "S*", "D0", "t200", "t200"], note="write fault; the first idle reply reports changes"), nm))
+        items.append((L.Sched(labels=["D0", "S*"] + [N(x) for x in nm[:1]] + ["D7", "w", "D0", "t200"], note="write fault while the idle reply is half delivered"), nm[:1]))
     # sessions inside the fragment of the refinement theorems (c04_exec_events)
     for _ in range(40 if ctx.tier == "quick" else 800):
         labels, info, nreq = L.gen_fragment_session(rng, rng.choice([6, 15, 40, 80]))
@@ -78,7 +100,7 @@ def run(ctx, only=None):
             fails.append(Failure(s.model_case(), "the client panicked: " + r["impl_raw"][:300]))
         if names is None:
             continue
-        evs = [x for _, x in t.events() if x != "end"]
+        evs = [x for _, x in t.events() if x != "end" and not x.startswith("closed")]
         want = [hexs(n) for n in names]
         total_events += len(evs)
         if len(names) >= 2 and any(l[0] in "ic" for l in s.labels):
